@@ -2,6 +2,7 @@
 from __future__ import annotations
 
 import collections
+import random
 
 from vlib import add_repo_to_path, driver, gen, progen, render
 from vlib.model import busmodel, refasm
@@ -57,7 +58,14 @@ def model_files(files):
 def compare_with_model(case, out: Outcome, label_check=True, profile_name="c03"):
     """shared by C03/C08/C09/C10: returns (model result, real result, source)"""
     ir, rom, files = case["ir"], case["rom"], case.get("files") or {}
-    src, inc_files, _ = render.render(ir)
+    # the textual form is not part of these properties: a third of the programs are written in a random layout (blank lines,
+    # comments, spacing around operators / commas / = := *= @=, letter case, no final newline) and with several statements
+    # per line (`label: lda #5`, `*=0x8000 .db 1`, `{ .db 1 }`)
+    lseed = case.get("join_seed")
+    lay = render.Layout(random.Random(lseed), knobs=[k for k in render.KNOBS if k != "include"] + ["join"]) if lseed is not None and lseed % 3 == 0 else None
+    src, inc_files, _ = render.render(ir, lay)
+    if lay is not None and lay.used.get("join"):
+        out.labels.append("statements-joined-on-a-line")
     model = refasm.assemble(ir, rom=rom, files=model_files(files), usermap=case.get("usermap"))
     if case.get("usermap"):
         out.labels.append("user-map")
